@@ -359,6 +359,9 @@ class MemEngine(object):
         m = self.m = c.build_machine(width=width, height=height,
                                      torus=bool(t.draw(2)), n_cores=n_cores)
         window = [None, 1, 2, 4, 7, 16][t.draw(6)]
+        if t.draw(3) == 0:
+            m.vary_layout()
+            w.probe("per_chip_layout")
         try:
             mc = c.start(materialise=True)
             from rigsim.seams import rig_module
